@@ -58,6 +58,8 @@ struct in_p2 {
 	/* encoded_check_name: answer of the NLS validator */
 	int enc_ret;
 	unsigned int enc_pos;
+	/* check_name detection: position of an illegal character (the witness of "name is illegal") */
+	unsigned int j;
 };
 struct in_p2 IN;
 #include "verif_in.h"
